@@ -1,15 +1,24 @@
 #!/bin/bash
-# Engine self-test. "setup": quick sanity (toy harness must pass + seeded bug must be found and replay natively).
+# Engine self-test, run by setup_cmd:
+#  1. toy harness: a seeded off-by-one must be found by the solver and replay natively; the clean harness must pass;
+#  2. translator validation: every testdata (patch, input) pair of /repo is executed concretely inside symgo
+#     (real parse -> Compile -> Match -> Replace -> ChangedIntervals) and must give the digest the native build gives.
 set -u
 cd "$(dirname "$0")/.."
 export GOFLAGS=-mod=mod GOPROXY=off GOSUMDB=off GOTOOLCHAIN=local
+export VERIF_DIR="$(pwd)" VERIF_REPO="${VERIF_REPO:-/repo}"
 out=$(./.build/symgo run -prop T00 -tier quick 2>&1); rc=$?
-echo "$out" | tail -5
+echo "$out" | tail -3
 if [ $rc -ne 1 ] || ! echo "$out" | grep -q "entry=bug panic: runtime error: index out of range \[10\]"; then
   echo "SELFTEST FAILED: toy harness (expected the seeded off-by-one to be found and replayed)"; exit 1
 fi
 if ! echo "$out" | grep -q "RESULT property=T00 entry=split .* violations(distinct-sampled)=0"; then
   echo "SELFTEST FAILED: toy split harness"; exit 1
 fi
-rm -f evidence/T00.json
+python3 selftest/t01gen.py || { echo "SELFTEST FAILED: native digests"; exit 1; }
+out=$(./.build/symgo run -prop T01 -tier quick 2>&1); rc=$?
+echo "$out" | tail -3
+if [ $rc -ne 0 ]; then echo "SELFTEST FAILED: translator validation (engine vs native on testdata)"; exit 1; fi
+rm -f evidence/T00.json evidence/T01.json
+rm -rf replays/T00 replays/T01
 echo "SELFTEST OK"
